@@ -560,7 +560,7 @@ def inclusion(run, R="INC"):
         run.check(not unfiltered, R, R + "|navigate|dot-components-collapsed", nav.loc(),
                   "`.` and empty components are dropped from both paths before `..` is collapsed",
                   "filename_navigate splits `%s` into components without dropping `.` and empty ones: a `..` then pops such a component instead of a directory, so with a root file given as `./main.asm` (or `sub//m.asm`) the path `../x.asm` is accepted and names a file outside the root file's directory" % ", ".join(unfiltered))
-                run.check(stack_ok, R, R + "|navigate|all-components-tested", nav.loc(), "every component of the result (from the including file's path as well as from the written path) went through the `..` test",
+        run.check(stack_ok, R, R + "|navigate|all-components-tested", nav.loc(), "every component of the result (from the including file's path as well as from the written path) went through the `..` test",
                   "filename_navigate: %s: `..` components in the including file's own path survive into the result, so a root file given as `../x/main.asm` can name files outside the working directory" % why_s)
         run.check(found, R, R + "|navigate|dotdot-confined", nav.loc(), "`..` with nothing left to pop is reported and rejected", "filename_navigate no longer rejects `..` past the start of the path")
     # real file system only behind `!is_std_path`, and only inside the file server
